@@ -424,8 +424,12 @@ theorem opOKb_sound {c : Cfg} {s : St} {op : Op} (h : opOKb c s op = true) : OpO
     · exact h3
   | cacheClear =>
     exact fun j gen hg => idleExcept_sound (g := none) h j gen (by simp) hg
-  | pids => simpa [opOKb] using h
-  | pidExists n => simpa [opOKb] using h
+  | pids =>
+    have h' : s.k.procs ≠ [] := by simpa [opOKb] using h
+    exact h'
+  | pidExists n =>
+    have h' : s.k.procs ≠ [] := by simpa [opOKb] using h
+    exact h'
   | kev e => trivial
   | iter a => trivial
   | close g => trivial
